@@ -87,7 +87,7 @@ Qed.
 
 Lemma step_tr_ext st s : tr_ext s (step_node st s).
 Proof.
-  destruct st as [rd busy cut|cut|cmd acc|cut|hard|]; cbn [step_node].
+  destruct st as [rd busy cut|cut|cmd acc|wait cut|hard|]; cbn [step_node].
   - destruct (v_up s); [apply exec_cut_tr_ext | apply tr_ext_refl].
   - destruct (v_queue s); [apply tr_ext_refl|]. destruct (v_up s); [apply exec_cut_tr_ext | apply tr_ext_refl].
   - destruct (v_up s && negb (v_failed s)); [|apply tr_ext_refl].
